@@ -27,11 +27,19 @@ func cmdProcCore(args []string) int {
 	name := fs.String("node", "vhpc@localhost", "node name")
 	debug := fs.Bool("debug", false, "debug")
 	free := fs.Int("free", 0, "free-running mode: number of executions of the scenario (no controller)")
+	hammer := fs.Int("hammer_ms", 0, "high-volume free-running mode: duration in ms")
+	hactors := fs.Int("actors", 8, "hammer: actors")
+	hsenders := fs.Int("senders", 3, "hammer: sender goroutines per actor")
+	hlimit := fs.Int64("limit", 0, "hammer: mailbox size")
 	fs.Parse(args)
-	pf, err := proccore.LoadPlans(*plans)
-	if err != nil {
-		fmt.Fprintln(os.Stderr, "load:", err)
-		return 2
+	var pf *proccore.PlanFile
+	var err error
+	if *hammer == 0 {
+		pf, err = proccore.LoadPlans(*plans)
+		if err != nil {
+			fmt.Fprintln(os.Stderr, "load:", err)
+			return 2
+		}
 	}
 	n, err := proccore.StartNode(*name)
 	if err != nil {
@@ -50,6 +58,15 @@ func cmdProcCore(args []string) int {
 	ctl := vsched.New(vsched.Config{})
 	ctl.Debug = *debug
 	r := &proccore.Runner{Node: n, Core: n.(gen.Core), Ctl: ctl, Out: bw, Seed: *seed}
+	if *hammer > 0 {
+		if err := r.Hammer(*hactors, *hsenders, time.Duration(*hammer)*time.Millisecond, *hlimit); err != nil {
+			fmt.Fprintln(os.Stderr, "hammer:", err)
+			return 2
+		}
+		b, _ := json.Marshal(map[string]any{"plans": r.Plans, "steps": r.Steps, "stalls": 0})
+		fmt.Println(string(b))
+		return 0
+	}
 	if *free > 0 {
 		rng := rand.New(rand.NewSource(*seed))
 		for i := 0; i < *free; i++ {
